@@ -12,76 +12,83 @@ open QtVerif.Config QtVerif.Backup
 
 /-- what the target must share with the source for an entry (same static configuration on both hubs): a virtual
 source port's id is not taken by a non-virtual port of the target and its attribute values have the JSON types of a
-new virtual port; a non-virtual source port exists on the target with the same driver definition and types -/
+new virtual port; a non-virtual source port exists on the target with the same driver definition and types.
+(`startPort true b`: the target's port under that id when the loop over the document starts, in the repaired
+`put_ports`.) -/
 def TargetOK (cfg : Cfg) (b : Option Port) (p : Port) : Prop :=
-  (p.pdef.virtual = true ∧ afterReset b = none ∧
+  (p.pdef.virtual = true ∧ startPort true b = none ∧
     ∃ vd, p.pdef = vportDef cfg.hist vd ∧
       Compatible (setAttr cfg (fresh (vportDef cfg.hist vd)) "enabled" (.bool true)).1 p) ∨
-  (∃ t, afterReset b = some t ∧ Compatible t p)
+  (∃ t, startPort true b = some t ∧ Compatible t p)
 
-/-- **restore ∘ backup on one entry**: whatever the target hub holds under that id, restoring the GET entry of `p`
-yields a port with the same definition, the same value of every attribute and — when the port is enabled (GET
+/-- **restore ∘ backup on one entry**: whatever the target hub holds under that id and whatever expressions `m` the
+other ports carry at that moment, provided the entry's expression closes no loop with them, restoring the GET entry of
+`p` yields a port with the same definition, the same value of every attribute and — when the port is enabled (GET
 reports null otherwise) — the same value. -/
-theorem restore_roundtrip_entry (cfg : Cfg) (p : Port) (id : String) (b : Option Port)
-    (hp : WF cfg p) (ht : TargetOK cfg b p) :
-    ∃ r, restoreEntry cfg b (docOf id p) = .ok (some r) ∧ r.pdef = p.pdef ∧ r.attrs = p.attrs ∧
+theorem restore_roundtrip_entry (cfg : Cfg) (lc : LoopCheck) (m : String → String) (p : Port) (id : String)
+    (b : Option Port) (hp : WF cfg p) (ht : TargetOK cfg b p)
+    (hl : ∀ c, entryExpr cfg (docOf id p) = some c → lc m id c = false) :
+    ∃ r, restoreChk cfg lc m (startPort true b) (docOf id p) = .ok (some r) ∧ r.pdef = p.pdef ∧ r.attrs = p.attrs ∧
       (enabledOf p = true → r.value = p.value) := by
-  unfold restoreEntry
   rcases ht with ⟨hv, hb, vd, hvd, hc⟩ | ⟨t, hb, hc⟩
   · rw [hb]
+    obtain ⟨r, hr, h⟩ := restoreChk_doc cfg lc m p _ id hp hc hl
+    refine ⟨r, ?_, h⟩
+    unfold restoreChk at hr ⊢
     have e : restoreOn cfg none (docOf id p) =
         restoreOn cfg (some (setAttr cfg (fresh (vportDef cfg.hist vd)) "enabled" (.bool true)).1) (docOf id p) := by
       simp only [restoreOn, docOf, hvd, vportDef, if_true]
-    rw [e]
-    exact restoreOn_doc cfg p _ id hp hc
-  · rw [hb]; exact restoreOn_doc cfg p t id hp hc
+    rw [loopRefused_false cfg lc m _ (docOf id p) hl] at hr ⊢
+    rw [e]; exact hr
+  · rw [hb]; exact restoreChk_doc cfg lc m p t id hp hc hl
 
-/-- **restore ∘ backup on a whole document** (full strength): for every source (any list of well-formed ports with
-distinct ids) and every target state running the same static configuration, PUT /ports ACCEPTS the document obtained
-from GET /ports of the source, and afterwards the target holds under every entry's id a port with the source's
-definition, attributes and (if enabled) value; passwords and everything else outside the document are untouched
-(`restore_device`). -/
-theorem restore_roundtrip (cfg : Cfg) (src : List (String × Port)) (st : BState)
+/-- the expression every source port carries, by id -/
+def srcMap (src : List (String × Port)) : String → String :=
+  fun id => match src.find? (fun x => x.1 = id) with
+    | some x => exprText (some x.2)
+    | none => ""
+
+/-- the source configuration is acyclic: no source expression closes a loop with the source's other expressions
+(C04's invariant of every API-reachable configuration, in terms of the loop check) -/
+def SourceAcyclic (cfg : Cfg) (lc : LoopCheck) (src : List (String × Port)) : Prop :=
+  ∀ x ∈ src, ∀ c, entryExpr cfg (docOf x.1 x.2) = some c → lc (srcMap src) x.1 c = false
+
+/-- **restore ∘ backup on a whole document** (full strength, REPAIRED `put_ports`: `clearFirst = true`): for every
+acyclic source (any list of well-formed ports with distinct ids), every monotone loop check and every target state
+running the same static configuration — whatever expressions its ports carry — PUT /ports ACCEPTS the document
+obtained from GET /ports of the source, and afterwards the target holds under every entry's id a port with the
+source's definition, attributes and (if enabled) value. For the unrepaired code this is FALSE:
+`unrepaired_restore_rejected_by_stale_target_expression`. -/
+theorem restore_roundtrip (cfg : Cfg) (lc : LoopCheck) (src : List (String × Port)) (st : BState)
     (nd : (src.map (·.1)).Nodup)
-    (hsrc : ∀ x ∈ src, WF cfg x.2 ∧ TargetOK cfg (st.ports x.1) x.2) :
-    (putPorts cfg st (src.map (fun x => docOf x.1 x.2))).2 = .ok ∧
-    ∀ x ∈ src, ∃ r, (putPorts cfg st (src.map (fun x => docOf x.1 x.2))).1.ports x.1 = some r ∧
+    (hsrc : ∀ x ∈ src, WF cfg x.2 ∧ TargetOK cfg (st.ports x.1) x.2)
+    (hmono : Mono lc) (hacy : SourceAcyclic cfg lc src) :
+    (putPorts cfg lc true st (src.map (fun x => docOf x.1 x.2))).2 = .ok ∧
+    ∀ x ∈ src, ∃ r, (putPorts cfg lc true st (src.map (fun x => docOf x.1 x.2))).1.ports x.1 = some r ∧
       r.pdef = x.2.pdef ∧ r.attrs = x.2.attrs ∧ (enabledOf x.2 = true → r.value = x.2.value) := by
-  have hok : (putPorts cfg st (src.map (fun x => docOf x.1 x.2))).2 = .ok := by
-    apply putBody_accepts cfg src (fun id => afterReset (st.ports id)) nd
-    intro x hx
-    obtain ⟨r, hr, _⟩ := restore_roundtrip_entry cfg x.2 x.1 (st.ports x.1) (hsrc x hx).1 (hsrc x hx).2
-    exact ⟨r, hr⟩
-  refine ⟨hok, ?_⟩
-  intro x hx
-  have ndd : ((src.map (fun x => docOf x.1 x.2)).map (·.id)).Nodup := by
-    rw [List.map_map]; exact nd
-  have hmem : docOf x.1 x.2 ∈ src.map (fun x => docOf x.1 x.2) := List.mem_map_of_mem hx
-  obtain ⟨o, h1, h2⟩ := putBody_ok_entry cfg (fun id => afterReset (st.ports id)) _ ndd hok _ hmem
-  obtain ⟨r, hr, h3⟩ := restore_roundtrip_entry cfg x.2 x.1 (st.ports x.1) (hsrc x hx).1 (hsrc x hx).2
-  unfold restoreEntry at hr
-  have : (docOf x.1 x.2).id = x.1 := rfl
-  rw [this] at h1 h2
-  rw [hr] at h1
-  cases h1
-  exact ⟨r, h2, h3⟩
+  have key := putBody_roundtrip cfg lc (srcMap src) src (fun id => startPort true (st.ports id)) nd
+    (fun id => Or.inl (exprText_startPort_true (st.ports id)))
+    (fun x hx => by simp only [srcMap, find_of_nodup src nd x hx])
+    (fun x hx m hm => restore_roundtrip_entry cfg lc m x.2 x.1 (st.ports x.1) (hsrc x hx).1 (hsrc x hx).2
+      (fun c hc => hmono m (srcMap src) x.1 c hm (hacy x hx c hc)))
+  exact key
 
 /-- **a rejected document names the failing entry and the switches are back on** — for all three restore calls.
-PUT /ports: whatever the document and the state, afterwards polling (`updating`) and event delivery (`events`) are
-enabled — the `finally:` — and an error carries the id of an entry of the document whose restore step failed.
-PUT /devices: the same switches are on afterwards, and an error carries the index of the FIRST entry that fails the
-entry schema (every earlier entry is acceptable). PUT /device: a rejected document changes nothing at all — it
-validates before it touches anything and never uses the switches. -/
-theorem reject_names_entry_and_reenables (cfg : Cfg) (st : BState) (docs : List PortDoc)
-    (sdocs : List (Option (String × Slave))) (ddoc : Option DeviceDoc) :
-    ((putPorts cfg st docs).1.updating = true ∧ (putPorts cfg st docs).1.events = true ∧
-      ∀ id e, (putPorts cfg st docs).2 = .err id e →
-        ∃ d ∈ docs, d.id = id ∧ ∃ tgt, restoreOn cfg tgt d = .error e) ∧
+PUT /ports (repaired or not, any loop check): whatever the document and the state, afterwards polling (`updating`) and
+event delivery (`events`) are enabled — the `finally:` — and an error carries the id of an entry of the document whose
+restore step failed. PUT /devices: the same switches are on afterwards, and an error carries the index of the FIRST
+entry that fails the entry schema (every earlier entry is acceptable). PUT /device: a rejected document changes
+nothing at all — it validates before it touches anything and never uses the switches. -/
+theorem reject_names_entry_and_reenables (cfg : Cfg) (lc : LoopCheck) (clearFirst : Bool) (st : BState)
+    (docs : List PortDoc) (sdocs : List (Option (String × Slave))) (ddoc : Option DeviceDoc) :
+    ((putPorts cfg lc clearFirst st docs).1.updating = true ∧ (putPorts cfg lc clearFirst st docs).1.events = true ∧
+      ∀ id e, (putPorts cfg lc clearFirst st docs).2 = .err id e →
+        ∃ d ∈ docs, d.id = id ∧ ∃ m tgt, restoreChk cfg lc m tgt d = .error e) ∧
     ((putSlavesDoc st sdocs).1.updating = true ∧ (putSlavesDoc st sdocs).1.events = true ∧
       ∀ i, (putSlavesDoc st sdocs).2 = .err i →
         sdocs[i]? = some none ∧ ∀ m, m < i → ∃ x, sdocs[m]? = some (some x)) ∧
     ((putDeviceDoc st ddoc).2 = false → (putDeviceDoc st ddoc).1 = st) := by
-  refine ⟨⟨rfl, rfl, fun id e h => putBody_err_names_entry cfg _ docs id e h⟩, ⟨rfl, rfl, ?_⟩, ?_⟩
+  refine ⟨⟨rfl, rfl, fun id e h => putBody_err_names_entry cfg lc _ docs id e h⟩, ⟨rfl, rfl, ?_⟩, ?_⟩
   · intro i h
     simp only [putSlavesDoc] at h
     cases hf : firstInvalid sdocs 0 with
@@ -186,7 +193,7 @@ def emptyState : BState :=
   { ports := fun _ => none, device := bootDevice demoCfg none, slaves := fun _ => none, updating := true, events := true }
 
 /-- a document whose second entry is refused (virtual port without definition): the error names `v2` -/
-example : errId (putPorts demoCfg emptyState
+example : errId (putPorts demoCfg (fun _ _ _ => false) true emptyState
     [docOf "v1" demoPort, { id := "v2", virtual := true, vdef := none, attrs := [], value := none }]).2 = some "v2" := by
   decide +kernel
 
@@ -205,5 +212,51 @@ example : valueAfter (restoreOn demoCfg (some (fresh relayDef))
     { id := "relay", virtual := false, vdef := none, attrs := [("enabled", .bool true), ("tag", .str "t")],
       value := some (.num 40) }) = some (.num 40) := by
   decide +kernel
+
+/-! ### the unrepaired `put_ports` violates the property: stale target expressions -/
+
+/-- two writable non-virtual ports (same hardware on source and target) -/
+def exprPortDef : PortDef :=
+  { virtual := false, writable := true, vdef := none, defaults := [("enabled", .bool false), ("expression", .str "")],
+    initial := none }
+
+def withExpr (t : String) : Port := (setAttr demoCfg (fresh exprPortDef) "expression" (.str t)).1
+
+/-- references of the two texts of the witness -/
+def witnessRefs (t : String) : List String := if t = "$q" then ["q"] else if t = "$p" then ["p"] else []
+
+/-- source: p := $q, q without expression (acyclic, API-reachable); target: p without expression, q := $p -/
+def witnessSrc : List (String × Port) := [("p", withExpr "$q"), ("q", withExpr "")]
+
+def witnessTarget : BState :=
+  { emptyState with ports := fun id => if id = "p" then some (withExpr "") else if id = "q" then some (withExpr "$p")
+                                       else none }
+
+/-- the loop check used by the witness is monotone (hypothesis of `restore_roundtrip`, non-trivial instance) -/
+example : Mono (loopsWith witnessRefs 4) := mono_loopsWith witnessRefs (by decide) 4
+
+/-- the witness source is acyclic in the sense of `restore_roundtrip` -/
+example : SourceAcyclic demoCfg (loopsWith witnessRefs 4) witnessSrc := by
+  intro x hx c hc
+  simp only [witnessSrc, List.mem_cons, List.not_mem_nil, or_false] at hx
+  rcases hx with rfl | rfl
+  · have : entryExpr demoCfg (docOf "p" (withExpr "$q")) = some "$q" := by decide +kernel
+    rw [this] at hc
+    cases hc
+    decide +kernel
+  · have : entryExpr demoCfg (docOf "q" (withExpr "")) = none := by decide +kernel
+    rw [this] at hc
+    cases hc
+
+/-- **The unrepaired code violates the property**: `port.reset()` resets nothing, so the target's `q := $p` is still in
+place when the backup's first entry `p := $q` goes through the checked assignment: the restore of an acyclic backup is
+rejected as a circular dependency at `p`. With the repair (expressions of the remaining ports cleared first) the same
+document is accepted. -/
+theorem unrepaired_restore_rejected_by_stale_target_expression :
+    errId (putPorts demoCfg (loopsWith witnessRefs 4) false witnessTarget
+      (witnessSrc.map (fun x => docOf x.1 x.2))).2 = some "p" ∧
+    errId (putPorts demoCfg (loopsWith witnessRefs 4) true witnessTarget
+      (witnessSrc.map (fun x => docOf x.1 x.2))).2 = none := by
+  constructor <;> decide +kernel
 
 end QtVerif.C20
